@@ -4,8 +4,10 @@
 package ref
 
 import (
+	"crypto/md5"
 	"fmt"
 	"regexp"
+	"sort"
 	"strings"
 	"time"
 
@@ -115,7 +117,9 @@ type AggModel struct {
 }
 
 type DestModel struct {
-	Filter gen.Filter
+	Filter  gen.Filter
+	Inst    int // instance number of the destination's address 127.0.0.1:1:i<Inst> (Build uses the position unless InstSet)
+	InstSet bool
 }
 
 type RouteModel struct {
@@ -372,7 +376,11 @@ func Build(m *Model, o BuildOpts) *Built {
 			rt = c
 		} else {
 			for j, d := range r.Dests {
-				ds = append(ds, h.CounterDest(r.Key, d.Filter.MustMatcher(), j))
+				inst := j
+				if d.InstSet {
+					inst = d.Inst
+				}
+				ds = append(ds, h.CounterDest(r.Key, d.Filter.MustMatcher(), inst))
 			}
 			var err error
 			switch r.Type {
@@ -422,3 +430,38 @@ func (b *Built) Close() {
 }
 
 var _ = matcher.Matcher{}
+
+// ---- carbon's consistent-hash ring for the harness destinations (host 127.0.0.1, instance i<N>) ----------------
+
+type ringEnt struct {
+	pos  int
+	inst string
+	idx  int
+}
+
+func ringPos(key string) int {
+	sum := md5.Sum([]byte(key))
+	return int(sum[0])<<8 | int(sum[1])
+}
+
+// CarbonOwner returns the index (into insts) of the destination carbon's ring picks for key: 100 replicas per node with
+// keys "('127.0.0.1', 'i<N>'):<r>", 16-bit positions from MD5, entries ordered by (position, host, instance), first
+// entry at or after the key's position, wrapping around.  All harness destinations share the host.
+func CarbonOwner(insts []int, key string) int {
+	var ring []ringEnt
+	for i, n := range insts {
+		inst := fmt.Sprintf("i%d", n)
+		for r := 0; r < 100; r++ {
+			ring = append(ring, ringEnt{ringPos(fmt.Sprintf("('127.0.0.1', '%s'):%d", inst, r)), inst, i})
+		}
+	}
+	sort.SliceStable(ring, func(a, b int) bool {
+		if ring[a].pos != ring[b].pos {
+			return ring[a].pos < ring[b].pos
+		}
+		return ring[a].inst < ring[b].inst
+	})
+	p := ringPos(key)
+	k := sort.Search(len(ring), func(j int) bool { return ring[j].pos >= p }) % len(ring)
+	return ring[k].idx
+}
